@@ -40,6 +40,77 @@ def lock_static(facts):
     return out
 
 
+def spine_scripts(kinds):
+    """Long-chain scripts (the generator's random histories stay short): `autoclean` crosses the automatic clean at
+    height 10000 — with the best branch a not yet consolidated side branch, or the root with stale forks —, `files`
+    crosses the 1000-header file boundary twice and goes through Save / Load with a small depth / Clean."""
+    import random
+
+    def one(rnd, kind):
+        out = ["init net=test maxdepth=144 diff=off split=on", "subscribe"]
+        t = [1296689202]
+        nid = [1]
+
+        def hdr(prev, bits=486604799):
+            i = nid[0]
+            nid[0] += 1
+            t[0] += 600
+            out.append(f"hdr id={i} prev={prev} bits={bits} time={t[0]}")
+            out.append(f"sub id={i}")
+            return i
+        main = [0]
+        if kind == "autoclean":
+            upto = 10000 - rnd.randint(3, 12)
+            for _ in range(upto):
+                main.append(hdr(main[-1]))
+            if rnd.random() < 0.7:
+                # a heavier side branch takes over just below 10000 and is extended across it
+                best = [main[upto - rnd.randint(1, 6)]]
+                for _ in range(rnd.randint(2, 8)):
+                    best.append(hdr(best[-1], 453050367))
+            else:
+                # the root stays best; a stale fork hangs off it
+                stale = [main[upto - rnd.randint(2, 8)]]
+                for _ in range(rnd.randint(1, 3)):
+                    stale.append(hdr(stale[-1]))
+                best = main
+            while True:
+                best.append(hdr(best[-1]))
+                if out[-1] and len(out) > 2 * 10030:
+                    break
+            out.append("dump")
+            out.append(f"cleand d={rnd.choice([146, 150, 5000])}")
+            out.append("dump step=97")
+            for _ in range(3):
+                best.append(hdr(best[-1]))
+            out.append("dump step=89")
+        else:
+            n = 2100 + rnd.randint(0, 300)
+            for _ in range(n):
+                main.append(hdr(main[-1]))
+            side = [main[n - rnd.randint(2, 40)]]
+            for _ in range(rnd.randint(1, 4)):
+                side.append(hdr(side[-1]))
+            out += ["dump", "save", f"loadd d={rnd.choice([146, 150, 400, 1100])}", "dump step=37"]
+            for _ in range(3):
+                main.append(hdr(main[-1]))
+            out += [f"cleand d={rnd.choice([146, 160, 1200])}", "dump step=41"]
+            main.append(hdr(main[-1]))
+            side.append(hdr(side[-1]))
+            out += [f"crashsave ld={rnd.choice([146, 300])}", "save", "load", "dump step=1000"]
+        return out
+
+    def extra(seed, tier):
+        rnd = random.Random(seed * 7919 + 13)
+        out = []
+        reps = 1 if tier == "quick" else 3
+        for kind in kinds:
+            for _ in range(reps):
+                out += one(rnd, kind)
+        return "\n".join(out) + "\n"
+    return extra
+
+
 def make_gen(profiles, quick_n, thorough_n, extra=None):
     """profiles: list of (profile, weight). Scripts are split between them."""
     def gen(seed, tier, out):
